@@ -24,6 +24,7 @@ CONSTANTS SyncRule,     \* "aboveError" = code; "never" = spec mutant
           AttachRule,   \* "always" = code; "willWrite" = spec mutant (terminal only when some core accepted)
           OverrideRule, \* "default" = code (nil / no-op override -> default action); "raw" = spec mutant
           GrpcGuard,    \* "exempt" = code (Fatalln ignores the level guard from DPanic up); "plain" = spec mutant (pre-fix)
+          WriteLoop,    \* "all" = code (every accepting core is written whatever earlier ones returned); "break" = spec mutant
           SugarGuard,   \* "exempt" = code; "plain" = spec mutant (pre-check without the DPanic exemption)
           Emit
 
@@ -34,11 +35,17 @@ Lvls == {DPanic, Panic, Fatal}
 FrontEnds == {"logger", "logger.Log", "check", "sugar", "sugarf", "sugarw", "sugarln", "sugar.Logw", "stdlog", "grpc", "grpcf", "grpcln"}
 HookCfgs == {"unset", "nil", "noop", "custom"}
 \* core compositions (abstract): sequence of IO leaves <<accepts this level?, buffered sink?>> plus a flag: Check reaches nothing
-Cores == {"nop", "off", "on", "bws", "tee-on-on", "tee-off-on", "tee-on-bws", "sampled-out", "hooked-on", "inc-off"}
+\* "bws-stopped": the buffered sink was used and then Stop()ped before this call (shutdown path: no flush loop any
+\* more, Write still buffers, only Sync moves the bytes on).  "tee-fail-*": the first branch's sink fails its Write.
+Cores == {"nop", "off", "on", "bws", "bws-stopped", "tee-on-on", "tee-off-on", "tee-on-bws", "tee-fail-on", "tee-fail-bws",
+          "sampled-out", "hooked-on", "inc-off"}
+Fails(c, i) == c \in {"tee-fail-on", "tee-fail-bws"} /\ i = 1
 LeavesOf(c) == CASE c = "nop" -> <<>>
                  [] c = "off" -> << [acc |-> FALSE, bws |-> FALSE] >>
                  [] c = "on"  -> << [acc |-> TRUE, bws |-> FALSE] >>
-                 [] c = "bws" -> << [acc |-> TRUE, bws |-> TRUE] >>
+                 [] c \in {"bws", "bws-stopped"} -> << [acc |-> TRUE, bws |-> TRUE] >>
+                 [] c = "tee-fail-on"  -> << [acc |-> TRUE, bws |-> FALSE], [acc |-> TRUE, bws |-> FALSE] >>
+                 [] c = "tee-fail-bws" -> << [acc |-> TRUE, bws |-> FALSE], [acc |-> TRUE, bws |-> TRUE] >>
                  [] c = "tee-on-on"  -> << [acc |-> TRUE, bws |-> FALSE], [acc |-> TRUE, bws |-> FALSE] >>
                  [] c = "tee-off-on" -> << [acc |-> FALSE, bws |-> FALSE], [acc |-> TRUE, bws |-> FALSE] >>
                  [] c = "tee-on-bws" -> << [acc |-> TRUE, bws |-> FALSE], [acc |-> TRUE, bws |-> TRUE] >>
@@ -88,12 +95,18 @@ Attach == /\ pc = "attach"
 Leaf == accepting[cur]
 Encode == /\ pc = "encode" /\ encoded' = [encoded EXCEPT ![Leaf] = TRUE] /\ pc' = "sinkwrite"
           /\ CaseUnch /\ UNCHANGED <<accepting, cur, after, inSink, inBuf, synced, ran, snap>>
+\* a failing sink: ioCore.Write returns the error without syncing; CheckedEntry.Write goes on with the next core
+\* (WriteLoop = "break" is the spec mutant that stops at the first error)
 SinkWrite == /\ pc = "sinkwrite"
-             /\ IF LeavesOf(core)[Leaf].bws
-                THEN inBuf' = [inBuf EXCEPT ![Leaf] = TRUE] /\ UNCHANGED inSink
-                ELSE inSink' = [inSink EXCEPT ![Leaf] = TRUE] /\ UNCHANGED inBuf
-             /\ pc' = "sync"
-             /\ CaseUnch /\ UNCHANGED <<accepting, cur, after, encoded, synced, ran, snap>>
+             /\ IF Fails(core, Leaf)
+                THEN /\ UNCHANGED <<inSink, inBuf>>
+                     /\ IF WriteLoop = "break" THEN pc' = "hook" /\ cur' = cur
+                        ELSE IF cur < Len(accepting) THEN cur' = cur + 1 /\ pc' = "encode" ELSE cur' = cur /\ pc' = "hook"
+                ELSE /\ IF LeavesOf(core)[Leaf].bws
+                        THEN inBuf' = [inBuf EXCEPT ![Leaf] = TRUE] /\ UNCHANGED inSink
+                        ELSE inSink' = [inSink EXCEPT ![Leaf] = TRUE] /\ UNCHANGED inBuf
+                     /\ pc' = "sync" /\ cur' = cur
+             /\ CaseUnch /\ UNCHANGED <<accepting, after, encoded, synced, ran, snap>>
 \* ioCore.Write: if ent.Level > ErrorLevel { c.Sync() }; a buffered sink flushes, then syncs the real sink
 SyncSink == /\ pc = "sync"
             /\ IF SyncRule = "aboveError"
@@ -114,13 +127,13 @@ Expected == IF ~Wanted THEN "none" ELSE IF hookcfg = "custom" THEN "custom" ELSE
 TerminalAlways == pc = "done" => ran = Expected
 \* when control is lost, every accepting core has the entry, synced, nothing buffered
 FlushedBefore == ran # "none" => \A i \in 1..Len(LeavesOf(core)) :
-                    LeavesOf(core)[i].acc => snap[i].inSink /\ snap[i].synced /\ ~snap[i].inBuf
+                    (LeavesOf(core)[i].acc /\ ~Fails(core, i)) => snap[i].inSink /\ snap[i].synced /\ ~snap[i].inBuf
 \* and nothing is written to a core that did not accept
 OnlyAccepting == \A i \in 1..Len(LeavesOf(core)) : (inSink[i] \/ inBuf[i]) => LeavesOf(core)[i].acc
 
 EmitBeh == IF Emit /\ pc = "done"
            THEN PrintT("@@BEH " \o ToJson([fe |-> fe, lvl |-> lvl, dev |-> dev, hook |-> hookcfg, core |-> core,
-                                            ran |-> ran, leaves |-> LeavesOf(core),
+                                            ran |-> ran, leaves |-> [i \in 1..Len(LeavesOf(core)) |-> [acc |-> LeavesOf(core)[i].acc, bws |-> LeavesOf(core)[i].bws, fail |-> Fails(core, i)]],
                                             final |-> [i \in 1..Len(LeavesOf(core)) |-> [inSink |-> inSink[i], inBuf |-> inBuf[i], synced |-> synced[i]]]]))
            ELSE TRUE
 =============================================================================
